@@ -20,6 +20,10 @@ RULE = ('generated universes: required-side interfaces (DAG), classes with '
         'SHA-1')
 
 
+# thorough tier: coverage-guided campaigns on top of the random ones
+ATHERIS = [{'impl': 'py', 'n': 30000, 'name': 'py-atheris'},
+           {'impl': 'c', 'n': 30000, 'name': 'c-atheris'}]
+
 def configs(tier, seed):
     n = 1200 if tier == 'quick' else 20000
     return [{'name': impl + '-lookup', 'impl': impl, 'mode': 'hyp', 'n': n}
